@@ -1,6 +1,9 @@
 #[inline(always)]
 pub fn shift_left_small(limbs: &mut [u64], amount: usize) -> u64 {
     debug_assert!(amount < 64);
+    if amount == 0 {
+        return 0;
+    }
     let mut overflow = 0;
     for limb in limbs {
         let value = (*limb << amount) | overflow;
@@ -13,6 +16,9 @@ pub fn shift_left_small(limbs: &mut [u64], amount: usize) -> u64 {
 #[inline(always)]
 pub fn shift_right_small(limbs: &mut [u64], amount: usize) -> u64 {
     debug_assert!(amount < 64);
+    if amount == 0 {
+        return 0;
+    }
 
     let mut overflow = 0;
     for limb in limbs.iter_mut().rev() {
